@@ -270,6 +270,11 @@ fn odd_abstract_inputs(out: &mut Vec<Input>) {
         ("oneof-nonnull-member", "input A @oneOf { a: Int! }\ntype Query { f(a: A): Int }", "query Q($a: A) { f(a: $a) }"),
         ("duplicate-type-names", "type A { x: Int }\ntype A { y: Int }\ntype Query { a: A }", "query Q { a { y } }"),
         ("enum-and-object-same-name", "enum A { X }\ntype A { y: Int }\ntype Query { a: A }", "query Q { a }"),
+        // interfaces that "implement" interfaces (the clause is read by the parser and ignored by the generator today), also in cycles
+        ("interface-implements-itself", "interface Entity implements Entity { id: ID }\ninterface Node { id: ID }\ntype A implements Entity & Node { id: ID }\ntype Query { node: Node entity: Entity }", "query Q { node { __typename id ... on Entity { id } } }"),
+        ("interface-implements-itself-unrelated-query", "interface Entity implements Entity { id: ID }\ninterface Node { id: ID }\ntype A implements Entity { id: ID }\ntype B implements Node { id: ID }\ntype Query { node: Node }", "query Q { node { __typename id ... on B { id } } }"),
+        ("interfaces-implement-each-other", "interface P implements C { id: ID }\ninterface C implements P { id: ID }\ntype A implements P & C { id: ID }\ntype Query { p: P c: C }", "query Q { p { __typename id ... on A { id } } c { __typename ... on C { id } } }"),
+        ("interface-implements-chain", "interface Base { id: ID }\ninterface Mid implements Base { id: ID }\ninterface Top implements Mid & Base { id: ID }\ntype A implements Top & Mid & Base { id: ID }\ntype Query { top: Top base: Base }", "query Q { top { __typename id } base { __typename ... on A { id } ... on Top { id } } }"),
     ];
     for (n, s, q) in cases {
         out.push(Input { family: format!("odd/{}", n), schema: s.into(), query: q.into() });
